@@ -147,6 +147,7 @@ func genC16(seed uint64, tier string, prop string) Case {
 }
 
 type lifeEv struct {
+	vigilFirst bool     // set: the request's vigil certainly began before its instance started to close
 	keys       []string // shiftexp: the keys it was handed
 	kind       string   // set del shift shiftexp destroy
 	swamp, key string
@@ -332,6 +333,7 @@ func runC16(t *testing.T, c Case) (res Result) {
 								st := resp.Swamps[0].KeysAndStatuses[0].Status
 								e.acked = st == hydrapb.Status_NEW || st == hydrapb.Status_UPDATED
 							}
+							e.vigilFirst = probe.vigilHeldBeforeClose(simrt.Self())
 							done = true
 						})
 					case "del":
@@ -591,6 +593,11 @@ func runC16(t *testing.T, c Case) (res Result) {
 					case (r.kind == "del" || r.kind == "shift" || r.kind == "shiftexp") && !(r.key == w.key && r.removed):
 						// a delete/shift that leaves the swamp empty destroys it, whether or not it removed anything itself
 						why = "concurrent_delete_or_shift_emptying_the_swamp(auto_destroy)"
+						if w.vigilFirst {
+							// the known window is a Set that has the instance but has not begun its vigil yet; a Set whose
+							// vigil preceded the destroy is waited for, and what it stores has to be kept
+							why = "although_its_vigil_preceded_the_auto_destroy_of_the_emptied_swamp"
+						}
 					case r.kind == "stop":
 						why = "concurrent_graceful_stop"
 					}
